@@ -114,3 +114,12 @@ import math
 n17, d17 = 20, 3; X17 = rs.randn(n17, d17); y17 = X17.mean(0) + .2
 code = float(gaussian_syn_likelihood_ghurye_olkin(X17, y17)[0]); plug = float(ss.multivariate_normal.logpdf(y17, X17.mean(0), np.cov(X17, rowvar=False)))
 report('F17', abs((code - plug) - (d17 - 1) * (n17 - d17 - 2) / 2 * math.log(n17 - 1)) < 1.0, f"code {code:.2f} vs plug-in MVN {plug:.2f}; predicted offset {(d17-1)*(n17-d17-2)/2*math.log(n17-1):.2f}")
+
+# F18: Rejection with an adaptive distance: discrepancy column left unsorted while all other outputs are permuted
+m18 = elfi.ElfiModel(); a18 = elfi.Prior('uniform', 0, 2, model=m18, name='a')
+S18 = elfi.Simulator(lambda a, batch_size=1, random_state=None: np.column_stack([a + random_state.randn(batch_size), 10 * a + 5 * random_state.randn(batch_size)]), a18, model=m18, name='S', observed=np.array([[1., 10.]]))
+s118 = elfi.Summary(lambda y: y[:, 0], S18, model=m18, name='s1'); s218 = elfi.Summary(lambda y: y[:, 1], S18, model=m18, name='s2'); ad18 = elfi.AdaptiveDistance(s118, s218, model=m18, name='ad')
+pool18 = elfi.OutputPool(['s1', 's2']); r18 = elfi.Rejection(ad18, batch_size=20, seed=2, pool=pool18, output_names=['s1', 's2']).sample(10, n_sim=100, bar=False)
+allS = np.column_stack([np.concatenate([pool18.get_batch(i)[k] for i in range(5)]) for k in ('s1', 's2')]); sc = allS.std(0)
+rows = np.column_stack([r18.outputs['s1'], r18.outputs['s2']]); mine = np.sqrt((((rows - np.array([1., 10.])) / sc) ** 2).sum(1)); adv = np.ravel(r18.outputs['ad'])
+report('F18', np.allclose(np.sort(adv), np.sort(mine)) and not np.allclose(adv, mine), f"returned discrepancies {np.round(adv[:4], 3)}… vs distances of the returned rows {np.round(mine[:4], 3)}… (same multiset, wrong rows, not ascending)")
